@@ -30,9 +30,15 @@ def generate(rng, seed, index, tier):
         kw["lamb_init"] = float(rng.choice([0.01, 1.0, 2.0]))
     if rng.random() < 0.2:
         kw["lamb_inc"] = float(rng.choice([1.5, 2.0, 10.0]))
+    if rng.random() < 0.12:
+        # controllers without a step-size floor of their own, with the floor raised into the range they visit
+        kw["step_control_type"] = str(rng.choice(["Exact", "Fixed"], p=[0.8, 0.2]))
+        kw["lamb_min"] = float(rng.choice([0.5, 0.1, 0.05]))
+        kw["lamb_init"] = float(rng.choice([4.0, 1.0, 0.01]))
     kw["iteration_limit"] = int(rng.choice([5, 30, 100], p=[0.2, 0.6, 0.2]))
     kw = gen.quiet_params(kw)
-    return gen.base_world(seed, ID, index, spec, x0, y0, kw, case={"resolve": bool(rng.random() < 0.15), "faulted": bool(rng.random() < 0.5), "pts_seed": int(rng.integers(0, 2**31))})
+    obs = {"level": "CRITICAL", "callbacks": ["reenter"]} if rng.random() < 0.1 else None
+    return gen.base_world(seed, ID, index, spec, x0, y0, kw, obs=obs, case={"resolve": bool(rng.random() < 0.15), "faulted": bool(rng.random() < 0.5), "pts_seed": int(rng.integers(0, 2**31))})
 
 
 def _nontrivial(ex, bump):
